@@ -101,6 +101,18 @@ def fold_dynamic_names(tree):
                 return ast.copy_location(ast.Dict(keys=[ast.Constant(value=k.arg) for k in node.keywords], values=[k.value for k in node.keywords]), node)
             return node
 
+        def visit_If(self, node):
+            self.generic_visit(node)
+            # `if K in D: del D[K]`  ->  D.pop(K, None)
+            t = node.test
+            if not node.orelse and len(node.body) == 1 and isinstance(node.body[0], ast.Delete) and len(node.body[0].targets) == 1 \
+                    and isinstance(t, ast.Compare) and len(t.ops) == 1 and isinstance(t.ops[0], ast.In):
+                tgt = node.body[0].targets[0]
+                if isinstance(tgt, ast.Subscript) and ast.dump(tgt.value) == ast.dump(t.comparators[0]) and ast.dump(tgt.slice) == ast.dump(t.left):
+                    call = ast.Call(func=ast.Attribute(value=t.comparators[0], attr='pop', ctx=ast.Load()), args=[t.left, ast.Constant(value=None)], keywords=[])
+                    return ast.copy_location(ast.Expr(value=call), node)
+            return node
+
         def visit_Expr(self, node):
             self.generic_visit(node)
             c = node.value
